@@ -1132,7 +1132,69 @@ pub fn temp_programs() -> Vec<(String, String)> {
     bulk_family(&mut out);
     deferred_family(&mut out);
     host_only_family(&mut out);
+    exhausted_family(&mut out);
     out
+}
+
+// ------------------------------------------------------------------------------------------------
+// an EXHAUSTED size class: more live strings of one class than it has slots, so the newest ones live in exact-size
+// fallback memory of the persistent arena, next to each other; then strings among them are overwritten by
+// LONGER strings of the same class (up to the slot size), by shorter ones, by strings of other classes, grown by
+// concatenation, and the neighbours are read (seed C05-e1: a same-class reassign rewritten in place, trusting that
+// every string of at most 256 bytes owns a whole slot).  class (the 1024- and 512-slot ones) x what is
+// overwritten (a variable, an element, a local of a function) x by what (4).
+
+fn exhausted_family(out: &mut Vec<(String, String)>) {
+    for class in 8..20usize {
+        let (size, count) = pool_class(class);
+        let short = size - 26; // same class (the previous class ends at size - 8 or size - 32 below 26 only for c >= 16)
+        let short = if class < 16 { size - 7 } else { short };
+        for (ti, target) in ["variable", "element", "fn-local"].iter().enumerate() {
+            for (wi, with) in ["longer-same-class", "shorter", "other-class", "grown"].iter().enumerate() {
+                if (class + ti + wi) % 2 == 1 && class > 9 {
+                    continue; // half of the combinations for the larger classes: the programs are long-running
+                }
+                let mut lines: Vec<String> = Vec::new();
+                lines.push("make keep get []".into());
+                lines.push("make i get 1000".into());
+                lines.push(format!("jasi (i small pass {}) start", 1000 + count + 40));
+                lines.push(format!("keep.push({})", counted(short, "i", 'f', false)));
+                lines.push("i get i add 1".into());
+                lines.push("end".into());
+                // the victim(s) allocated AFTER exhaustion, next to each other
+                lines.push(format!("make v get {}", counted(short, "i", 'v', false)));
+                lines.push(format!("keep.push({})", counted(short, "i", 'n', false)));
+                lines.push(format!("make w get {}", counted(short, "i", 'w', false)));
+                let newval = match *with {
+                    "longer-same-class" => counted(size, "i", 'z', false),
+                    "shorter" => counted(short.saturating_sub(6).max(5), "i", 'y', false),
+                    "other-class" => counted(size + 40, "i", 'o', false),
+                    _ => "v add \"+\"".to_string(),
+                };
+                match *target {
+                    "variable" => lines.push(format!("v get {newval}")),
+                    "element" => {
+                        let nv = if *with == "grown" { "keep[keep.len() minus 1] add \"+\"".to_string() } else { newval.clone() };
+                        lines.push(format!("keep[keep.len() minus 2] get {nv}"));
+                    }
+                    _ => {
+                        let nv = if *with == "grown" { "loc add \"+\"".to_string() } else { newval.clone() };
+                        lines.push(format!("do work(i) start\nmake loc get {}\nmake nb get {}\nloc get {nv}\nreturn [loc, nb]\nend", counted(short, "i", 'l', false), counted(short, "i", 'b', false)));
+                        lines.push("shout(work(i))".into());
+                    }
+                }
+                lines.push("shout(v)".into());
+                lines.push("shout(w)".into());
+                lines.push("shout(keep[keep.len() minus 1])".into());
+                lines.push("shout(keep[keep.len() minus 2])".into());
+                lines.push("shout(keep[keep.len() minus 3])".into());
+                lines.push("shout(keep[0])".into());
+                lines.push("shout(keep.len())".into());
+                lines.push("shout(\"done\")".into());
+                out.push((format!("exhausted class={class} target={target} with={with}"), lines.join("\n")));
+            }
+        }
+    }
 }
 
 // ------------------------------------------------------------------------------------------------
